@@ -506,24 +506,37 @@ static int run_canary(std::uint64_t seed, int rounds, int per_round)
             // realistic donors: interrupted from outside while computing, never reach an interruption point
             for (int k = 0; k < 2; ++k)
             {
-                std::atomic<bool> started{false};
+                std::atomic<bool> started{false}, finished{false};
                 std::atomic<unsigned long> sinkv{0};
                 pika::thread donor([&] {
                     started.store(true);
                     unsigned long x = 1;
                     for (int i = 0; i < 20000; ++i) x = x * 6364136223846793005ul + 1442695040888963407ul;
                     sinkv.store(x);
+                    finished.store(true);
                 });
-                while (!started.load()) pika::this_thread::yield();
-                try
+                // (on the shared-priority scheduler a pika::thread placed on another worker's queue has
+                // no valid id - not this property's subject; then just wait for it)
+                if (donor.joinable())
                 {
-                    donor.interrupt();
-                    ++donors_interrupted;
+                    while (!started.load()) pika::this_thread::yield();
+                    try
+                    {
+                        donor.interrupt();
+                        ++donors_interrupted;
+                    }
+                    catch (...)
+                    {
+                    }
+                    try
+                    {
+                        donor.join();
+                    }
+                    catch (...)
+                    {
+                    }
                 }
-                catch (...)
-                {
-                }
-                donor.join();
+                while (!finished.load()) pika::this_thread::yield();
             }
             while (g_done.load() < base + per_round || g_helpers_done.load() < g_helpers.load())
                 pika::this_thread::yield();
